@@ -228,9 +228,13 @@ op(236000)
 assert len(state.decoded_descriptors) == n + 1 and state.decoded_values[-1] == 0
 
 # 237000 recalls (fails without a bitmap, before anything is recorded), 237255 cancels a reusable bitmap only
-expect_error(TypeError, op, 237000)
+# (rebased: since "fix: 237000 recalls the bitmap defined for reuse" the refusal is a PyBufrKitError and the
+# bitmapped descriptors are rebuilt from the bitmap and the back referenced descriptors)
+e = expect_error(PyBufrKitError, op, 237000)
+assert e.message == 'No bitmap is defined for reuse'
 assert len(state.decoded_descriptors) == n + 1
-state.bitmap, state.bitmapped_descriptors = [0, 1], [(0, 'x')]
+state.bitmap, state.bitmapped_descriptors = [0, 1], None
+state.back_referenced_descriptors = [(0, 'x'), (1, 'y')]
 op(237000)
 assert state.next_bitmapped_descriptor() == (0, 'x') and len(state.decoded_descriptors) == n + 2
 state.most_recent_bitmap_is_for_reuse = False
@@ -325,7 +329,7 @@ for kw in BOTH:
         e = expect_error(NotImplementedError, decode, build_message([bad, 1001], Bits().u(5, 7).to_bytes()), **kw)
         assert str(e) == 'Operator Descriptor {} not implemented'.format(bad)
     expect_error(IndexError, decode, build_message([204000, 1001], Bits().u(5, 7).to_bytes()), **kw)
-    expect_error(TypeError, decode, build_message([237000, 1001], Bits().u(5, 7).to_bytes()), **kw)
+    expect_error(PyBufrKitError, decode, build_message([237000, 1001], Bits().u(5, 7).to_bytes()), **kw)
     expect_error(TypeError, decode, build_message([223255, 1001], Bits().u(5, 7).to_bytes()), **kw)
     # 205 running out of bits
     msg = build_message([205020], Bits().s(b'0123456789').to_bytes())
